@@ -151,6 +151,7 @@ async def run_async(ctx, res, only=None):
     rng = random.Random(ctx["seed"] * 7368787 + 3)
     tables = pd.load_tables()
     cases = []
+    late_corr = []      # recorded after the per-case verdicts, so that they cannot crowd out concrete failing inputs
     for product in (pd.PRODUCT_P, pd.PRODUCT_I):
         w = World()
         await w.uid(product)
@@ -167,9 +168,8 @@ async def run_async(ctx, res, only=None):
                     dev = w.device(label)
                     p = dev.data[row["name"]]
                     held = (p.values.value, p.values.min_value, p.values.max_value)
-                    if only is None and held != triple and not (kind == "control"):
-                        res.fail("corr", dict(table=tname, row=row["name"], triple=list(triple)), list(triple), list(held),
-                                 "the triple reported by the response is not the triple held by the parameter")
+                    if only is None and held != triple and not (kind == "control") and k == 0:
+                        late_corr.append((dict(table=tname, row=row["name"], triple=list(triple)), list(triple), list(held)))
                     via_device = (k % 5 == 0)
                     if via_device:
                         r, frames = await pd.run_set(w, lambda: dev.set(row["name"], v, retries=1))
@@ -245,7 +245,264 @@ async def run_async(ctx, res, only=None):
             tag = c["obs"].split()[0].split(":")[0] + ":" + c["conv"].split()[0]
             if tag not in [s.get("tag") for s in res.samples]:
                 res.sample(dict(tag=tag, row=c["row"], triple=c["triple"], value=inp["value"], observed=c["obs"], raw=c["raw"], via=c["via"]))
+    # spec failures first, then model differences, then held-triple differences
+    res.failures.sort(key=lambda f: 0 if f["kind"] == "spec" else 1)
+    for inp, exp, obs in late_corr:
+        res.fail("corr", inp, exp, obs, "the triple reported by the response is not the triple held by the parameter")
     res.extra["rows"] = len({(c["table"], c["row"]) for c in cases})
+
+
+# ------------------------------------------------------------------ histories of reports, calls and retries (the report / set machine)
+def gen_history(rng, kind, row):
+    """events ('R', triple) controller report | ('S', value, retries) set call (decision + first attempt) |
+    ('T',) the sleep of the call in flight is over (retry, or the call returns).  Every call is run to its end."""
+    n = 256 ** row["size"]
+    top = min(n, 250)
+    v = rng.randrange(30, top - 30)
+    wide, narrow = (v, v - 20, v + 20), (v, v - 3, v + 3)
+    tmpl = rng.randrange(10)
+
+    def call(raw, retries=1, between=()):
+        """a call that runs to its end; `between[i]` = reports arriving after attempt i+1"""
+        out = [("S", shown(kind, row, raw), retries)]
+        for i in range(retries):
+            out += [("R", t) for t in (between[i] if i < len(between) else ())]
+            out.append(("T",))
+        return out
+
+    if tmpl == 0:      # steady state re-report, bounds narrowed, request between old and new bounds
+        evs = [("R", wide), ("R", narrow)] + call(v + rng.choice([5, -5, 10])) + call(v + 2) + call(v - 4)
+    elif tmpl == 1:    # bounds widened by a re-report
+        evs = [("R", narrow), ("R", wide)] + call(v + rng.choice([5, -5, 10])) + call(v + 21) + [("R", narrow)] + call(v + 6)
+    elif tmpl == 2:    # unconfirmed set, then the old value re-reported with narrower bounds while pending
+        evs = [("R", wide)] + call(v + 10) + [("R", narrow)] + call(v + 8) + call(v + 1) + [("R", wide)] + call(v + 8)
+    elif tmpl == 3:    # unconfirmed set, controller reports another value and other bounds
+        evs = [("R", wide)] + call(v - 10) + [("R", (v + 7, v - 2, v + 9))] + call(v + 7) + call(v + 15) + call(v - 3) + call(v + 9)
+    elif tmpl == 4:    # confirmed value re-reported, then bounds move away from the value
+        evs = ([("R", wide)] + call(v + 4) + [("R", (v + 4, v - 20, v + 20)), ("R", (v + 4, v + 10, v + 20))]
+               + call(v + 5) + call(v + 12) + call(v + 4))
+    elif tmpl == 5:    # F7: bounds excluding the requested value reported BETWEEN two attempts of one call
+        evs = [("R", wide)] + call(v + 10, 2, [[narrow]]) + call(v + 8) + call(v + 2)
+    elif tmpl == 6:    # the report between attempts confirms the value: the call returns True, no retry
+        evs = [("R", wide)] + call(v + 10, 3, [[(v + 10, v - 20, v + 20)]]) + call(v + 11)
+    elif tmpl == 7:    # confirmation together with bounds that exclude the value
+        evs = [("R", wide)] + call(v + 10, 2, [[(v + 10, v - 3, v + 3)]]) + call(v + 9) + call(v + 3)
+    elif tmpl == 8:    # reports between attempts that keep the value inside the bounds; several retries
+        evs = [("R", wide)] + call(v + 10, 3, [[(v, v - 15, v + 15)], [(v, v - 12, v + 30)]]) + call(v + 25)
+    else:              # random walk
+        cur = wide
+        evs = [("R", cur)]
+        for _ in range(rng.randrange(3, 8)):
+            def rnd_report():
+                val = cur[0] if rng.random() < 0.6 else rng.randrange(10, top - 10)
+                lo = rng.randrange(5, top - 20)
+                return (val, lo, rng.randrange(lo, top - 5))
+            if rng.random() < 0.4:
+                cur = rnd_report()
+                evs.append(("R", cur))
+            else:
+                retries = rng.choice([1, 1, 2, 3])
+                between = []
+                for _i in range(retries):
+                    if rng.random() < 0.4:
+                        cur = rnd_report()
+                        between.append([cur])
+                    else:
+                        between.append([])
+                evs += call(rng.choice([cur[1] - 1, cur[1], cur[2], cur[2] + 1, rng.randrange(0, top), cur[0]]), retries, between)
+    if kind == "schedule" and row["switch"]:
+        evs = [("R", (e[1][0] % 2, 0, 1)) if e[0] == "R" else (("S", rng.choice([0, 1, 2, "on", "off"]), e[2]) if e[0] == "S" else e)
+               for e in evs]
+    return evs
+
+
+async def run_histories(ctx, res, only=None):
+    import asyncio
+    quick = ctx["tier"] == "quick"
+    rng = random.Random(ctx["seed"] * 2750159 + 11)
+    tables = pd.load_tables()
+    records = []
+    TIMEOUT = 1.0
+    for product in (pd.PRODUCT_P, pd.PRODUCT_I):
+        w = World()
+        await w.uid(product)
+        st = {}
+        loop = asyncio.get_running_loop()
+        for tname, kind, label, row in rows_of(product, tables):
+            if kind in ("control", "profile"):      # the profile parameter object is re-created by every report
+                continue
+            if only and (only["table"], only["row"]) != (tname, row["name"]):
+                continue
+            reps = 1 if only else (1 if quick else 6)
+            if quick and not only and kind == "ecomax" and rng.random() < 0.5:
+                continue
+            for _ in range(reps):
+                evs = only["events"] if only else gen_history(rng, kind, row)
+                cw = pd.conv_words(kind, row)
+                words, steps = [], []
+                last = None
+                task, deadline = None, None
+                reports_in_call = []
+
+                def drain_tx():
+                    tx = []
+                    for fr in w.drain():
+                        try:
+                            cf = pd.canon_frame(fr)
+                        except Exception as e:  # noqa: BLE001
+                            tx.append(f"unencodable:{type(e).__name__}")
+                            continue
+                        if cf[0].startswith(("Set", "EcomaxControl")):
+                            vraw = request_raw(kind, [cf], row["size"])
+                            if isinstance(vraw, tuple) and vraw and vraw[0] == "schedule":
+                                vraw = vraw[2] if row["name"].endswith("_schedule_switch") else vraw[3]
+                            tx.append(vraw)
+                    return tx
+
+                def task_result():
+                    if task.cancelled():
+                        return "cancelled"
+                    e = task.exception()
+                    if e is not None:
+                        return "exc:" + type(e).__name__
+                    return "ret:%d" % int(bool(task.result()))
+
+                for ev in evs:
+                    if ev[0] == "R":
+                        last = tuple(ev[1])
+                        await feed_triple(w, tables, tname, kind, row, last, st)
+                        w.drain()
+                        words.append("R:%d:%d:%d" % last)
+                        steps.append(dict(ev="R", obs="-", last_report=list(last)))
+                        if task is not None:
+                            reports_in_call.append(list(last))
+                    elif ev[0] == "S":
+                        val, retries = ev[1], ev[2]
+                        p = w.device(label).data[row["name"]]
+                        held = (p.values.value, p.values.min_value, p.values.max_value)
+                        w.drain()
+                        t0 = loop.time()
+                        task = loop.create_task(p.set(val, retries=retries, timeout=TIMEOUT))
+                        await pd.settle()
+                        tx = drain_tx()
+                        words.append(f"S:{retries}:" + pd.enc_val(val))
+                        if task.done():
+                            r = task_result()
+                            obs = {"exc:ValueError": "d:reject", "exc:TypeError": "d:typeerror", "ret:1": "d:noop"}.get(r, "d:other:" + r)
+                            if tx:
+                                obs += "," + ",".join(f"tx:{x}" for x in tx)
+                            raised = r == "exc:ValueError"
+                            task = None
+                        else:
+                            obs = (f"d:transmit:{tx[0]}," if tx else "d:inflight-without-request,") + ",".join(f"tx:{x}" for x in tx)
+                            obs = obs.rstrip(",")
+                            raised = False
+                            deadline = t0 + TIMEOUT
+                            reports_in_call = []
+                        steps.append(dict(ev="S", value=val, obs=obs, tx=tx, raised=raised, held=list(held), last_report=list(last),
+                                          after=w.device(label).data[row["name"]].values.value))
+                    else:
+                        words.append("T")
+                        if task is None:
+                            steps.append(dict(ev="T", obs="-", tx=[], last_report=list(last)))
+                            continue
+                        await asyncio.sleep(max(0.0, deadline - loop.time()) + 0.0005)
+                        tx = drain_tx()
+                        if task.done():
+                            obs = task_result()
+                            if tx:
+                                obs = ",".join(f"tx:{x}" for x in tx) + "," + obs
+                            task = None
+                        else:
+                            obs = ",".join(f"tx:{x}" for x in tx) if tx else "-"
+                            deadline += TIMEOUT
+                        steps.append(dict(ev="T", obs=obs, tx=tx, last_report=list(last), reports_in_call=list(reports_in_call)))
+                if task is not None:
+                    task.cancel()
+                    await pd.settle()
+                    w.drain()
+                records.append(dict(table=tname, row=row["name"], kind=kind, conv=cw, words=words, steps=steps,
+                                    events=[[e[0]] + ([list(e[1])] if e[0] == "R" else ([e[1], e[2]] if e[0] == "S" else [])) for e in evs]))
+        await w.shutdown()
+    lines = []
+    for rec in records:
+        lines.append(f"c06hist {rec['conv']} " + " ".join(rec["words"]))
+        for s_ in rec["steps"]:
+            if s_["ev"] == "S":
+                lines.append(f"toraw {rec['conv']} {pd.enc_val(s_['value'])}")
+    ans = driver_batch(lines)
+    ai = 0
+    judge_lines, judge_idx = [], []
+    for ri, rec in enumerate(records):
+        model = ans[ai]
+        ai += 1
+        rec["model"] = model
+        outs = model.split(" | ")[0].split("/")
+        # outs has one entry per event after the first report
+        mval = None
+        k = 0
+        for si, s_ in enumerate(rec["steps"]):
+            if si == 0:
+                mval = s_["last_report"][0]
+                s_["model"] = "-"
+                continue
+            s_["model"] = outs[k] if k < len(outs) else "?"
+            k += 1
+            if s_["ev"] == "S":
+                s_["raw"] = ans[ai]
+                ai += 1
+                s_["value_before"] = mval
+            if s_["ev"] == "R":
+                mval = s_["last_report"][0]
+            for tok in s_["model"].split(","):
+                if tok.startswith("tx:"):
+                    mval = int(tok[3:])
+        for si, s_ in enumerate(rec["steps"]):
+            if s_["ev"] == "S" and s_["raw"].startswith("ok:") and all(isinstance(x, int) for x in s_["tx"]):
+                lo, hi = s_["last_report"][1], s_["last_report"][2]
+                txs = ",".join(str(x) for x in s_["tx"]) if s_["tx"] else "-"
+                judge_lines.append(f"c06judge {s_['raw'][3:]} {s_['value_before']} {lo} {hi} {int(s_['raised'])} {s_['after']} {txs}")
+                judge_idx.append((ri, si))
+    verdicts = driver_batch(judge_lines)
+    for (ri, si), vd in zip(judge_idx, verdicts):
+        records[ri]["steps"][si]["verdict"] = vd
+    for rec in records:
+        res.case(("history", rec["conv"], rec["table"], rec["row"], tuple(rec["words"])), nontrivial=any(s_["ev"] == "S" for s_ in rec["steps"]))
+        res.count("history:events", len(rec["words"]))
+        inp = dict(table=rec["table"], row=rec["row"], conv=rec["conv"], history=rec["events"], words=rec["words"])
+        reported = False
+        for si, s_ in enumerate(rec["steps"]):
+            if s_["ev"] == "S":
+                res.count("history:" + s_["obs"].split(",")[0].split(":")[1])
+                if s_.get("verdict", "pass") != "pass" and not reported:
+                    reported = True
+                    res.fail("spec", dict(inp, step=si), f"C06.spec raw={s_['raw']} value held={s_['value_before']} last reported bounds={s_['last_report'][1:]}",
+                             dict(result=s_["obs"], transmitted=s_["tx"], value_after=s_["after"], triple_held_by_the_parameter=s_["held"]),
+                             "a set is not checked against the triple the controller LAST reported (C06.spec on the history)")
+            if s_["ev"] == "T":
+                # second sentence of C06 on a retry: the transmitted raw must lie within the bounds last reported
+                lo, hi = s_["last_report"][1], s_["last_report"][2]
+                for x in s_["tx"]:
+                    if isinstance(x, int):
+                        res.count("history:retry")
+                        if not lo <= x <= hi:
+                            res.count("history:retry outside the last reported bounds (F7)")
+                            f7 = any(not (t[1] <= x <= t[2]) for t in s_.get("reports_in_call", []))
+                            if f7 and res.extra.get("f7_recorded", 0) >= 4:
+                                continue
+                            if not reported:
+                                reported = True
+                                if f7:
+                                    res.extra["f7_recorded"] = res.extra.get("f7_recorded", 0) + 1
+                                res.fail("spec", dict(inp, step=si), f"every transmitted set request within the last reported bounds [{lo}, {hi}]",
+                                         dict(transmitted=x, reports_during_the_call=s_.get("reports_in_call")),
+                                         "a retry transmits a value outside the bounds the controller reported during the call",
+                                         **(dict(finding="F7") if f7 else {}))
+        obs_line = "/".join(s_["obs"] for s_ in rec["steps"][1:])
+        if obs_line != rec["model"].split(" | ")[0]:
+            res.fail("corr", inp, rec["model"], obs_line, "history of reports, calls and retries differs from the report/set machine (c06hist)")
+        if any(s_["ev"] == "S" for s_ in rec["steps"]) and not any(isinstance(s, dict) and s.get("tag") == "history" for s in res.samples):
+            res.samples.insert(0, dict(tag="history", row=rec["row"], words=rec["words"], observed=obs_line))
 
 
 def run(ctx):
@@ -255,7 +512,18 @@ def run(ctx):
                 "{min-1,min,min+1,max-1,max,max+1,value,value+1,0,top,top+1}, each +-1 ulp, +0.5 step, +0.4999999 step, -0.5000001 step, "
                 "the int form, True/False, 'on'/'off', random floats [quick: 24 sampled per triple]; every 5th call through Device.set. "
                 "distinct = (conversion, table, row, triple, value); all non-trivial (a real set call on a real parameter)")
+    hres = Result("C06")
+    pd.run(run_histories(ctx, hres))      # first: its failures must not be crowded out by the 200-failure cap
     pd.run(run_async(ctx, res))
+    res.failures = hres.failures + res.failures
+    res.evaluations += hres.evaluations
+    res.nontrivial |= hres.nontrivial
+    res.dist.update(hres.dist)
+    res.samples = hres.samples[:1] + res.samples
+    res.extra.update(hres.extra)
+    res.rule += ("; PLUS histories per row: reports through real frames (same value/other bounds, other value, after an unconfirmed "
+                 "set = while pending) interleaved with set calls, compared with the Lean report machine (c06hist) and each call judged "
+                 "by C06.spec against (value held, bounds of the LAST report)")
     return res
 
 
@@ -264,6 +532,10 @@ def replay(ctx):
     res = Result("C06")
     res.rule = "replay of one recorded (table, row, triple, value)"
     inp = f["input"]
+    if "history" in inp:
+        evs = [("R", tuple(e[1])) if e[0] == "R" else (("S", e[1], e[2]) if e[0] == "S" else ("T",)) for e in inp["history"]]
+        pd.run(run_histories(dict(ctx, tier="quick"), res, only=dict(table=inp["table"], row=inp["row"], events=evs)))
+        return res
     tok = inp["value_token"]
     kind, _, body = tok.partition(":")
     if kind == "i":
